@@ -320,10 +320,22 @@ func runC05(c *Ctx) {
 			os.Remove(filepath.Join(dir, "gen_m.go"))
 			stale := i%2 == 1
 			if stale {
-				MustWrite(filepath.Join(dir, "gen_m.go"), "package main\n\n// output of an earlier run on an earlier version of m.fo\n")
+				// longer than anything fc writes for m.fo: nothing of it may survive
+				MustWrite(filepath.Join(dir, "gen_m.go"), "package main\n\n// output of an earlier run on an earlier (longer) version of m.fo\n"+strings.Repeat("// func stale() {}\n", 20000))
 				c.Count("real_process_runs_over_stale_output")
 			}
-			r := c.Fc(dir, c.MiniFoi(c.Work), "m.fo")
+			// the same file under every spelling of its path and from another working directory
+			var r RunResult
+			switch i % 4 {
+			case 0, 1:
+				r = c.Fc(dir, c.MiniFoi(c.Work), "m.fo")
+			case 2:
+				r = c.Fc(dir, c.MiniFoi(c.Work), "./m.fo")
+				c.Count("real_process_runs_path=./m.fo")
+			default:
+				r = c.Fc(c.Work, c.MiniFoi(c.Work), filepath.Join(dir, "m.fo"))
+				c.Count("real_process_runs_path=absolute_from_other_cwd")
+			}
 			b, _ := os.ReadFile(filepath.Join(dir, "gen_m.go"))
 			if r.Exit != 0 && stale {
 				b = nil // a rejected file is not written: the earlier output stays (C16), not compared here
